@@ -215,7 +215,14 @@ def _rf_post(ctx):
 
 
 def _kd_pre(ctx):
-    return (ctx.arg(0, "start"), ctx.arg(1, "stop"), ctx.arg(2, "keepIntervals", None), ctx.arg(3, "deleteIntervals", None))
+    keep, dele = ctx.arg(2, "keepIntervals", None), ctx.arg(3, "deleteIntervals", None)
+    try:
+        keep, dele = _listed(keep), _listed(dele)  # (never consumes a one-shot iterable, never keeps one in a case)
+    except LookupError:
+        REC.skip("keepdelete", "one-shot-iterable-of-unknown-content")
+        return SKIP
+    as_list = lambda x: [list(e) for e in x] if x is not None else None
+    return (ctx.arg(0, "start"), ctx.arg(1, "stop"), as_list(keep), as_list(dele))
 
 
 def _kd_post(ctx):
